@@ -27,7 +27,7 @@ ASSUME PrintT(ToJson([tag |-> "FAMILY", n |-> FamilySize, alphabet |-> SetToSeq(
 ASSUME TableOK
 ASSUME \A o \in OptSets : o.esc
 
-VARIABLES s, ml,        \* the string and the mode (chosen initially, then fixed)
+VARIABLES s, ml,        \* the string (grown one character at a time while p = 0) and the mode
           p,            \* characters of Text delivered so far + 1
           st,           \* lexer state
           toks,         \* tokens returned so far
@@ -41,13 +41,22 @@ Expect(line) == <<[t |-> "STRING", v |-> s, l |-> line]>>
 LinesOf(str, m) == 1 + (IF m THEN CountLF(str, 1) ELSE 0)
 Cf == Cfg(TokDefaults)
 
-Init == /\ s \in Texts /\ ml \in BOOLEAN
-        /\ p = 1 /\ st = LInit /\ toks = <<>> /\ calls = 0
+\* p = 0: the string is still being chosen (every string of the family is a state of this
+\* phase, so the laws below are evaluated on each); Start begins the step-by-step run.
+Init == /\ s = <<>> /\ ml \in BOOLEAN
+        /\ p = 0 /\ st = LInit /\ toks = <<>> /\ calls = 0
         /\ act = "init"
+Grow == /\ p = 0 /\ Len(s) < MaxLen
+        /\ \E c \in Alphabet : s' = Append(s, c)
+        /\ act' = "grow"
+        /\ UNCHANGED <<ml, p, st, toks, calls>>
+Start == /\ p = 0 /\ Len(s) <= StepLen
+         /\ p' = 1 /\ act' = "start"
+         /\ UNCHANGED <<s, ml, st, toks, calls>>
 
-Stepping == Len(s) <= StepLen /\ calls < 2
-Deliver(name, mode, cond) ==
-    /\ Stepping /\ st.m = mode /\ cond
+Stepping == p >= 1 /\ calls < 2
+Deliver(name, mode) ==
+    /\ Stepping /\ st.m = mode
     /\ LET r == Step(st, CharAt(Text, p), Cf) IN
         /\ r.err = NoErr /\ ~r.rew           \* an error or a rewind here would be a model violation: see NoError
         /\ st' = r.st
@@ -56,31 +65,31 @@ Deliver(name, mode, cond) ==
         /\ calls' = IF r.emit # <<>> /\ r.emit[1].t = "EOF" THEN calls + 1 ELSE calls
     /\ act' = name
     /\ UNCHANGED <<s, ml>>
-Open == Deliver("open", "Top", p = 1)
-Char == Deliver("char", "Str", CharAt(Text, p) \notin {DQ, BSL} /\ p <= Len(E) + 1)
-Backslash == Deliver("backslash", "Str", CharAt(Text, p) = BSL)
-Letter == Deliver("letter", "StrEsc", TRUE)
-Close == Deliver("close", "Str", CharAt(Text, p) = DQ)
-Eof == Deliver("eof", "Top", p > Len(Text))
-Next == Open \/ Char \/ Backslash \/ Letter \/ Close \/ Eof
+Open == p = 1 /\ Deliver("open", "Top")
+Char == (CharAt(Text, p) \notin {DQ, BSL} /\ p <= Len(E) + 1) /\ Deliver("char", "Str")
+Backslash == CharAt(Text, p) = BSL /\ Deliver("backslash", "Str")
+Letter == p > 1 /\ Deliver("letter", "StrEsc")
+Close == CharAt(Text, p) = DQ /\ Deliver("close", "Str")
+Eof == p > Len(Text) /\ Deliver("eof", "Top")
+Next == Grow \/ Start \/ Open \/ Char \/ Backslash \/ Letter \/ Close \/ Eof
 Spec == Init /\ [][Next]_vars
 
 (* ---- the listed property ------------------------------------------------------ *)
 \* on the string reader alone: un-escaping gives s back, closed by the appended quote only
-Inverse == p = 1 => InverseLaw(s, ml)
+Inverse == p = 0 => InverseLaw(s, ml)
 \* on the whole lexer, under several option sets: exactly one STRING token, then EOF
-LexInverse == p = 1 => \A o \in OptSets :
+LexInverse == p = 0 => \A o \in OptSets :
     LET r == Lex(Text, Cfg(o)) IN
         /\ r.err = NoErrL
         /\ r.toks = Expect(LinesOf(s, ml)) \o <<[t |-> "EOF", v |-> <<>>, l |-> LinesOf(s, ml)]>>
-NoQuote == NoRawQuote(E)
-NoBreak == ~ml => NoRawBreak(E)
-Paired == PairsOK(E, 1)
+NoQuote == p = 0 => NoRawQuote(E)
+NoBreak == (p = 0 /\ ~ml) => NoRawBreak(E)
+Paired == p = 0 => PairsOK(E, 1)
 (* ---- the same, as invariants of the step machine -------------------------------- *)
 \* the string is not closed early: no token before the final quote was delivered
 NoEarlyClose == (Stepping /\ p > 1 /\ p <= Len(E) + 1) => (toks = <<>> /\ st.m \in {"Str", "StrEsc"})
 \* no step of the run can fail or rewind
-NoError == (Stepping /\ calls < 2) => LET r == Step(st, CharAt(Text, p), Cf) IN r.err = NoErr /\ ~r.rew
+NoError == Stepping => LET r == Step(st, CharAt(Text, p), Cf) IN r.err = NoErr /\ ~r.rew
 \* once closed: the token is s, then EOF for ever
 Closed == (Stepping /\ p > Len(Text)) =>
     /\ Len(toks) >= 1 /\ toks[1] = Expect(LinesOf(s, ml))[1]
